@@ -62,6 +62,46 @@ Theorem C08_fresh_nonvacuous :
 Proof. exact fresh_nonvacuous. Qed.
 Print Assumptions C08_fresh_nonvacuous.
 
+(* ---- "every declared schema name is present in the result" ----
+   What the TRACKER guarantees for build_schemas' top-level (re-)parse of a name without tracker state, started at
+   rest: never RETURN_EXISTING / RETURN_PLACEHOLDER / a cycle placeholder; either the body runs or the tracker
+   itself registers the depth placeholder. *)
+Theorem C08_top_enter_action : forall n c c1 a,
+  stack c = [] -> state_of c n = NotStarted -> enter (Some n) c = (c1, a) ->
+  a = AContinue \/ (a = ACreate /\ registered c1 n = true).
+Proof. exact top_enter_action. Qed.
+Print Assumptions C08_top_enter_action.
+
+(* Presence therefore reduces to ONE explicit hypothesis about the parser body, [contract]: a top-level frame that
+   is told to CONTINUE has registered its name (raw or sanitised, [alt]) when it reaches the `finally`; plus: the body
+   never deletes a registration.  Under it, every name visited by the loop of build_schemas (first visits and
+   re-parses of depth placeholders, any number of passes) is present at the end, so the post-condition
+   RuntimeError "was not parsed" cannot fire.  The contract is NOT proved here (the body is not modelled in Cycle.v);
+   it is evaluated on every implementation trace by the correspondence driver (guard bit 5) and fails exactly for
+   F08e.  [visited] covers all declared names: checked per document by the oracle (declared name present). *)
+Theorem C08_all_present : forall alt l c,
+  rest c -> contract alt c l = true -> forallb (fun x => no_unreg (top_call x)) l = true ->
+  forall n, In n (visited c l) -> present alt (run_tops c l) n = true.
+Proof. exact all_present_tops. Qed.
+Print Assumptions C08_all_present.
+
+Theorem C08_contract_nonvacuous :
+  contract (fun n => n) (init 1) tops_fresh = true
+  /\ visited (init 1) tops_fresh = [[83;48]; [83;49]; [83;50]; [83;51]]
+  /\ forallb (fun x => no_unreg (top_call x)) tops_fresh = true.
+Proof. exact contract_nonvacuous. Qed.
+Print Assumptions C08_contract_nonvacuous.
+
+(* F08e: a null schema node breaks the contract (implementation's trace of corpus/C08/F08e.json) *)
+Theorem C08_refuted_F08e :
+  let c := run_tops (init default_max_depth) tops_F08e in
+  contract (fun n => n) (init default_max_depth) tops_F08e = false
+  /\ visited (init default_max_depth) tops_F08e = [[88]; [89]; [88]]
+  /\ present (fun n => n) c [88] = false /\ present (fun n => n) c [89] = true
+  /\ rest c /\ guard_F08b default_max_depth tops_F08e = true.
+Proof. exact refuted_F08e. Qed.
+Print Assumptions C08_refuted_F08e.
+
 (* Counted depth: in a tree of NAMED frames started within the limit, recursion_depth never exceeds
    max_depth + 1 (the extra one is the frame that is answered with the depth placeholder). *)
 Theorem C08_depth_named : forall t, all_named t = true ->
